@@ -90,6 +90,18 @@ def entries():
                pre=["0 <= sel <= 3"], plain=False, only=("C12",)))
     L.append(e("ph.dict.untyped", "pa: bool, va: int, sel: int, rel: bool, w: int", '("dict", None) if not rel else ("dict", [], True)',
                "mkdict(('a', pa, ... if sel == 0 else va), (..., sel == 1, ...))", "{'a': w}", pre=["0 <= sel <= 2"], plain=False, only=("C12",)))
+    # the `...` KEY mapped to something that is not `...` (a value, None, a nested container) in every dict form
+    L.append(e("ph.dict.ellipsis.key", "a: int, i: int, pa: bool, va: int, sel: int, ve: int, w: int",
+               'pick((("dict", [("a", False, %s)], True), ("dict", [("a", False, %s)], False), ("dict", [("a", False, %s)], "first"), '
+               '("dict", None), ("dict", [], True), ("dict", [], False)), i)' % (INT_A, INT_A, INT_A),
+               "mkdict(('a', pa, va), (..., True, pick((..., ve, None, [...], {'a': ...}), sel)))", "{'a': w}",
+               pre=["0 <= i <= 5", "0 <= sel <= 4"], plain=False, only=("C12",), timeout=150))
+    L.append(e("ph.dict.ellipsis.key.nested", "a: int, i: int, va: int, sel: int, ve: int, w: int",
+               'pick((("dict", [("o", False, ("dict", [("a", False, %s)], True))], False), ("list_t", ("dict", [("a", False, %s)], True), NOLEN), '
+               '("any", [("dict", [("a", False, %s)], True), ("none",)])), i)' % (INT_A, INT_A, INT_A),
+               "pick(({'o': {'a': va, ...: pick((..., ve, None), sel)}}, [{'a': va, ...: pick((..., ve, None), sel)}], {'a': va, ...: pick((..., ve, None), sel)}), i)",
+               "pick(({'o': {'a': w}}, [{'a': w}], {'a': w}), i)", pre=["0 <= i <= 2", "0 <= sel <= 2"], plain=False, only=("C12",), timeout=150,
+               covers=("raised",)))
     L.append(e("ph.nested.list", "i: int, n: int, w: int", 'pick((("dict", None), ("any", None), ("list", None, NOLEN), ("dict", [], True)), i)',
                "pick(({'items': mklist(n, ..., ...)}, {'items': mklist(n, ..., ...)}, [mklist(n, ..., ...)], {'items': [mklist(n, ..., ...)]}), i)", "w",
                pre=["0 <= i <= 3", "0 <= n <= 2"], plain=False, only=("C12",)))
